@@ -242,6 +242,17 @@ class C02(Prop):
             elif c < 0.9:
                 w = b'\x82\x18\x80' + pb(p)
                 ops.append(mk('chain SuppPubInfo b' + w.hex(), planted=planted, k='supp'))
+                # every helper that builds a structure from a message holding stored bytes — detached variants, signers, MAC with
+                # recipients, recipients in every recipient context (seeded C02-r3: tbs_detached_data rebuilt the message and lost them)
+                p2 = prot_bytes(); E = self.EMPTY; pl = g.b()
+                sg = '(sign %s %s %%s (sigs (sig %s %s b01) (sig %s %s b02)))' % (self.ph_form(p), E, self.ph_form(p2), E, self.ph_form(prot_bytes()), E)
+                ops.append(mk('verifyd sign1 (sign1 %s %s - b05) %s %s verr7' % (self.ph_form(p), E, pl, aad), planted=planted, k='verify'))
+                ops.append(mk('tbsd sign1 (sign1 %s %s - b05) %s %s' % (self.ph_form(p), E, pl, aad), planted=planted, k='struct'))
+                ops.append(mk('verifyd sign %s 0 %s %s vok' % (sg % '-', pl, aad), planted=planted, planted2=p2.hex(), k='verify'))
+                ops.append(mk('verify sign %s 0 %s vok' % (sg % pl, aad), planted=planted, planted2=p2.hex(), k='verify'))
+                ops.append(mk('verify mac (mac %s %s %s b0a (rcps (rcp %s %s - (rcps)))) %s vok' % (self.ph_form(p), E, pl, self.ph_form(p2), E, aad), planted=planted, k='verify'))
+                ops.append(mk('decrypt enc (enc %s %s b0102 (rcps (rcp %s %s b03 (rcps)))) %s cat' % (self.ph_form(p), E, self.ph_form(p2), E, aad), planted=planted, k='decrypt'))
+                ops.append(mk('decrypt rcp (rcp %s %s b0102 (rcps (rcp %s %s b03 (rcps)))) %s %s cat' % (self.ph_form(p), E, self.ph_form(p2), E, r.choice(['EncRecipient', 'MacRecipient', 'RecRecipient']), aad), planted=planted, k='decrypt'))
             else:
                 ops.append(mk('bstr b' + p.hex(), planted=planted, k='bstr'))
                 ops.append(mk('sigstruct CoseSign1 %s - %s %s' % (self.ph_form(p), aad, g.b()), planted=planted, k='struct'))
@@ -272,6 +283,8 @@ class C02(Prop):
         if k in ('struct', 'verify', 'decrypt'):
             want = (refcbor.head(2, len(bytes.fromhex(pl))) + bytes.fromhex(pl)).hex()
             if want not in impl: return 'structure does not carry the stored protected bytes'
+            p2 = o['meta'].get('planted2')
+            if p2 is not None and (refcbor.head(2, len(bytes.fromhex(p2))) + bytes.fromhex(p2)).hex() not in impl: return 'structure does not carry the signer\'s stored protected bytes'
         return None
 
 # ===================================================================== C03 / C04 / C05
